@@ -233,6 +233,9 @@ fn log_case(case: &LogCase) -> Verdict {
             format!("the traversal reaches {:?} infoset {} of player {} in pass {} but the library made no draw there", k, i, p + 1, pass),
         );
     }
+    if reference.avg_underflow {
+        return Verdict::Discard("average-weights-underflow");
+    }
     let shaken = run_ref(t, &draws, Some(case.seed ^ 77));
     let want = ref_profile(&prep.rg, &reference.avg);
     if max_diff(&want, &ref_profile(&prep.rg, &shaken.avg)).0 > 1e-7 {
